@@ -180,6 +180,16 @@ def _roundtrip(ctx, case, flav, version, app_id, instrs, fobj=None, mutate=None)
     ctx.count("long_lived_deserializer_decodes")
     from netqasm.lang.parsing.binary import Deserializer
     Deserializer(codec.flavour_obj({"vanilla": "nv", "nv": "vanilla", "reids": "vanilla"}[flav]))  # another controller starts up
+    _EDITS[0] += 1
+    if objs and _EDITS[0] % 3 == 0:
+        # the long-lived decoder is first handed bytes it must refuse part-way (a command with an opcode the flavour does not
+        # have, after commands it can decode): what it refused leaves nothing behind for the next subroutine
+        junk = raw[:4 + 7 * (len(objs) // 2 + 1)] + bytes([0xEE, 1, 2, 3, 4, 5, 6])
+        try:
+            _deserializers()[flav].deserialize_subroutine(junk)
+            ctx.count("unknown_opcode_accepted")
+        except Exception:
+            ctx.count("long_lived_deserializer_refusals")
     dd = _deserializers()[flav].deserialize_subroutine(raw)
     if [codec.describe_instr(i) for i in dd.instructions] != [[m, v] for m, v in instrs] or \
             any(type(a) is not type(b) for a, b in zip(objs, dd.instructions)):
